@@ -152,6 +152,7 @@ package dag
 //@   requires repo != nil && def.OperationUnmarshaler != nil
 //@   requires [wrapper-non-nil] forall e *Entity :: { wrapper(e) } e != nil ==> wrapper(e) != nil
 //@   check [one-result-per-remote] len(remoteRefs) > 0 ==> sentcount(out) == len(remoteRefs)
+//@   assert at `remoteRefs, err := repo.ListRefs(remoteRefSpec)` [lists-this-remote-and-namespace] remoteRefSpec == "refs/remotes/" + remote + "/" + def.Namespace + "/"
 //@   loop 1
 //@     invariant sentcount(out) == rangeindex + 1
 
@@ -160,10 +161,13 @@ package dag
 //@ func Remove
 //@   props C14 C15
 //@   requires repo != nil
+//@   modifies repository.refs, repository.mutSeq, repository.refMutSeq
+//@   opt trusted_frame
 //@   let ns = def.Namespace
 //@   let sid = string(id)
 //@   ensures [local-removed]   result == nil ==> !(("refs/" + ns + "/" + sid) in repository.refs)
 //@   ensures [remotes-removed] result == nil ==> (forall r string :: { (r in repository.remotes) } (r in repository.remotes) ==> !(("refs/remotes/" + r + "/" + ns + "/" + sid) in repository.refs))
+//@   ensures [only-shrinks]    forall q string :: { (q in repository.refs) } (q in repository.refs) ==> (q in old(repository.refs))
 //@   ensures [only-those]      forall k string :: { (k in repository.refs) } k != "refs/" + ns + "/" + sid && (forall r string :: { (r in repository.remotes) } (r in repository.remotes) ==> k != "refs/remotes/" + r + "/" + ns + "/" + sid) ==> (k in repository.refs) == (k in old(repository.refs)) && repository.refs[k] == old(repository.refs)[k]
 //@   loop 1
 //@     invariant len(matches) >= 1 && matches[0] == "refs/" + ns + "/" + sid && (matches == nil || fresh(matches))
@@ -369,3 +373,77 @@ package dag
 //@   ensures [accepted-base-is-well-formed] result == nil ==> base.OperationType == opType && base.OperationType != 0 && base.author != nil && len(base.Nonce) >= 20 && len(base.Nonce) <= 64
 //@ func Operation.Time
 //@   modifies nothing
+
+// Setting metadata on an operation that has no id yet touches its own metadata only.
+//@ func (*OpBase).SetMetadata
+//@   props C10
+//@   opt interior_ok
+//@   modifies base.Metadata, mapof(base.Metadata)
+//@   opt trusted_frame
+//@ func NewOpBase
+//@   trusted
+//@   modifies nothing
+
+// AllMetadata (C10, C04): the merged view holds every key of both maps, and for a key present in both the operation's
+// own value - later set-metadata never overrides.
+//@ func (*OpBase).AllMetadata
+//@   props C10 C04
+//@   requires base != nil
+//@   modifies nothing
+//@   let own = base.Metadata
+//@   let extra = base.extraMetadata
+//@   ensures [fresh-map] result != nil && fresh(result)
+//@   ensures [keys-of-both] forall key string :: { (key in result) } (key in result) == ((own != nil && (key in own)) || (extra != nil && (key in extra)))
+//@   ensures [own-metadata-wins] forall key string :: { result[key] } (own != nil && (key in own)) ==> result[key] == own[key]
+//@   ensures [extra-otherwise] forall key string :: { result[key] } !(own != nil && (key in own)) && (extra != nil && (key in extra)) ==> result[key] == extra[key]
+//@   loop 1
+//@     invariant result != nil && fresh(result)
+//@     invariant forall key string :: { (key in result) } (key in result) == iterseen[key]
+//@     invariant forall key string :: { iterseen[key] } iterseen[key] ==> extra != nil && (key in extra) && result[key] == extra[key]
+//@   loop 2
+//@     invariant result != nil && fresh(result)
+//@     invariant forall key string :: { (key in result) } (key in result) == (iterseen[key] || (extra != nil && (key in extra)))
+//@     invariant forall key string :: { iterseen[key] } iterseen[key] ==> own != nil && (key in own) && result[key] == own[key]
+//@     invariant forall key string :: { result[key] } !iterseen[key] && (extra != nil && (key in extra)) ==> result[key] == extra[key]
+
+// Rebuilding the clocks of a namespace (C05, C06): when it succeeds, the edit clock is at least the edit time of the
+// head of *every* entity stored under the namespace - none is skipped, and a failure on one is reported.
+//@ func ReadAllClocksNoCheck
+//@   props C05 C06
+//@   requires repo != nil
+//@   modifies repository.clockSeen, repository.mutSeq
+//@   opt trusted_frame
+//@   ensures [every-entity-covered] result == nil ==> (forall q string :: { (q in repository.refs) } (q in repository.refs) && strings.HasPrefix(q, "refs/" + def.Namespace + "/") ==> repository.clockSeen[def.Namespace + "-edit"] >= packEdit(repository.refs[q]))
+//@   ensures [monotone] forall n string :: { repository.clockSeen[n] } repository.clockSeen[n] >= old(repository.clockSeen[n])
+//@   loop 1
+//@     invariant repository.refs == old(repository.refs)
+//@     invariant forall k int :: { refs[k] } 0 <= k && k <= rangeindex ==> repository.clockSeen[def.Namespace + "-edit"] >= packEdit(repository.refs[refs[k]])
+//@     invariant forall n string :: { repository.clockSeen[n] } repository.clockSeen[n] >= old(repository.clockSeen[n])
+
+// Reading every local entity (C11: the cache is built from it; C07): each ref of the namespace yields one streamed
+// entity, in listing order, numbered from 1 with the total; the stream is cut short only by an error item.
+//@ func ReadAll$1
+//@   props C11 C07
+//@   pure wrapper
+//@   requires repo != nil && def.OperationUnmarshaler != nil
+//@   requires [wrapper-non-nil] forall e *Entity :: { wrapper(e) } e != nil ==> wrapper(e) != nil
+//@   check [every-entity-streamed-or-an-error-ends-the-stream] sentcount(out) == len(refs) || (sentcount(out) > 0 && sentat(out, sentcount(out) - 1).Err != nil)
+//@   loop 1
+//@     invariant sentcount(out) == rangeindex + 1 && current == rangeindex + 2
+//@     invariant forall k int :: { sentat(out, k) } 0 <= k && k <= rangeindex ==> sentat(out, k).Err == nil && sentat(out, k).CurrentEntity == k + 1 && sentat(out, k).TotalEntities == len(refs)
+
+// Removing every entity of a namespace (C14): each listed entity goes through Remove - local ref and the
+// remote-tracking refs of every configured remote - and the first failure is reported.
+//@ func ListLocalIds
+//@   props C14
+//@   modifies nothing
+//@ func RemoveAll
+//@   props C14
+//@   requires repo != nil
+//@   let ns = def.Namespace
+//@   check [each-one-removed-with-its-remote-refs] result == nil ==> (forall j int :: { localIds[j] } 0 <= j && j < len(localIds) ==> !(("refs/" + ns + "/" + string(localIds[j])) in repository.refs) && (forall r string :: { (r in repository.remotes) } (r in repository.remotes) ==> !(("refs/remotes/" + r + "/" + ns + "/" + string(localIds[j])) in repository.refs)))
+//@   loop 1
+//@     invariant [removed-so-far] forall j int :: { localIds[j] } 0 <= j && j <= rangeindex ==> !(("refs/" + ns + "/" + string(localIds[j])) in repository.refs) && (forall r string :: { (r in repository.remotes) } (r in repository.remotes) ==> !(("refs/remotes/" + r + "/" + ns + "/" + string(localIds[j])) in repository.refs))
+//@     invariant [only-shrinks] forall q string :: { (q in repository.refs) } (q in repository.refs) ==> (q in old(repository.refs))
+
+// The goroutine of MergeAll lists the remote-tracking refs of exactly this remote and this namespace (C02, C15).
